@@ -607,7 +607,7 @@ def run(chk):
     for key, (m, l) in sorted(seen.items()):
         chk.instance(r_ru, key, sample=dict(phase=key, unit=m))
         if key not in want_unit:
-            chk.violation(r_ru, key, "rate_unit specialisation %s -> %s is not in tables/c09_rate_units.json (confirm and add it)" % (key, m), F, l)
+            chk.fail_broken("C09.rateunit: " + "rate_unit specialisation %s -> %s is not in tables/c09_rate_units.json (confirm and add it)" % (key, m))
         elif want_unit[key] != m:
             chk.violation(r_ru, key, "rate_unit<%s> returns measure::%s; the physical unit of that rate is measure::%s" % (key, m, want_unit[key]), F, l)
     for key in want_unit:
